@@ -124,11 +124,10 @@ def safe_isclose(a, b, rel_tol=1e-09, abs_tol=0.0):
         a = SR.lift(a)
         b = SR.lift(b)
         d = abs(a - b)
+        if abs_tol and bool(d <= abs_tol):
+            return True            # the limit is at least abs_tol
         m = abs(a) if bool(abs(a) >= abs(b)) else abs(b)
-        lim = m * rel_tol
-        if abs_tol and not bool(lim >= abs_tol):
-            lim = abs_tol
-        return bool(d <= lim)
+        return bool(d <= m * rel_tol)
     return math.isclose(a, b, rel_tol=rel_tol, abs_tol=abs_tol)
 
 
